@@ -1,6 +1,6 @@
 SPECIFICATION TraceSpec
-CONSTANTS BitSpace = 0 Honest = TRUE Window = 10 MaxRounds = 100 MaxGen = 100 MaxHon = 100000 MaxDup = 100000
-CONSTANTS CreditBy = "hash" Reset = FALSE
+CONSTANTS BitSpace = 0 Honest = TRUE Window = 10 MaxRounds = 100 MaxHon = 100000 MaxDup = 100000
+CONSTANTS CreditBy = "hash"
 INVARIANT TraceAccepted
 INVARIANT TypeOK
 INVARIANT SubProfile
